@@ -257,6 +257,17 @@ func genC20(repo string) (string, error) {
 	if err := o.skeletonCanon(util, "", "checkBootstrapRequest", "bootstrap_checks", goast.SkelOpt{Conds: true}); err != nil {
 		return "", err
 	}
+	// the streaming handlers: where the caller is validated relative to the receive loop
+	sopt := goast.SkelOpt{Calls: set("Recv", "validateRequest", "HandleTSORequest", "GetRaftCluster", "IsClosed", "syncHistoryRegion", "bindStream", "HandleRegionHeartbeat"), Conds: true}
+	if err := o.skeletonCalls(grpc, "Server", "Tso", "skel_Tso", sopt); err != nil {
+		return "", err
+	}
+	if err := o.skeletonCalls(grpc, "Server", "RegionHeartbeat", "skel_RegionHeartbeat", sopt); err != nil {
+		return "", err
+	}
+	if err := o.skeletonCalls(syn, "RegionSyncer", "Sync", "skel_SyncerSync", sopt); err != nil {
+		return "", err
+	}
 	bc, err := srv.Func("Server", "bootstrapCluster")
 	if err != nil {
 		return "", err
